@@ -863,10 +863,13 @@ class NetworkXGraphStorage:
                 self.lock.release()
 
     storage_instance = None
+    creation_lock = Lock()
 
     def __init__(self, logger=None):
-        if not NetworkXGraphStorage.storage_instance:
-            NetworkXGraphStorage.storage_instance = NetworkXGraphStorage.__NetworkXGraphStorage(logger=logger)
+        # threads making their first importer at the same time must end up with one store
+        with NetworkXGraphStorage.creation_lock:
+            if not NetworkXGraphStorage.storage_instance:
+                NetworkXGraphStorage.storage_instance = NetworkXGraphStorage.__NetworkXGraphStorage(logger=logger)
 
     def __getattr__(self, name):
         return getattr(self.storage_instance, name)
